@@ -116,6 +116,15 @@ func (p *scriptPool) Update(ctx context.Context, req pool.UpdateRequest) (*pool.
 	r := p.updateResp
 	r.InvalidPeers = append([]string{}, r.InvalidPeers...)
 	r.ActivePeers = append([]string{}, r.ActivePeers...)
+	if p.updates%2 == 1 {
+		// an empty list arrives as nil when the pool omitted the field or sent null: it means the same
+		if len(r.InvalidPeers) == 0 {
+			r.InvalidPeers = nil
+		}
+		if len(r.ActivePeers) == 0 {
+			r.ActivePeers = nil
+		}
+	}
 	return &r, nil
 }
 func (p *scriptPool) Peer(ctx context.Context, req pool.PeerRequest) (*pool.PeerResponse, error) {
